@@ -12,6 +12,14 @@ and the result (or the fact that it raised) is compared inside Coq with Model/Co
   flag3  an operand combination the model rejects must raise.
 A call on valid operands that raises is a failure of the property; its signature is the
 innermost yaw operator / indexer frame of the traceback plus the call shape.
+
+The property does not depend on how the interpreter was started: every case (the fixed probes, a grid
+with one demanded rejection per class x binary operator x kind of incompatible operand / impossible
+selection / bool scalar, and the random cases) is also executed by evaluate() of this module in fresh
+interpreters started with -O and with PYTHONOPTIMIZE=1 (assert statements and the calls inside them are
+compiled away, __debug__ is False).  An outcome that is the outcome of the checking process has the same
+Coq term and keeps its verdict; any other outcome is judged by the same c17_case term and reported with
+the suffix ':optimised-interpreter' (e.g. a rejection the property demands that no longer happens).
 """
 import copy
 import json
@@ -43,6 +51,8 @@ ASSUMPTIONS = [
     "normalised ratios and estimator values are compared with |impl - model| <= 2^-40 (1 + |model|)",
     "ValueError / TypeError / IndexError count as 'rejected with an error'; any other exception "
     "type is reported as a failure of the operator that raised it",
+    "interpreter start-up modes explored: default, -O, PYTHONOPTIMIZE=1 (-OO cannot be run: the third-party "
+    "dependency treecorr does not import with docstrings stripped)",
 ]
 RULE = ("cases = (container class, shape (bins, patches), auto, members, operator / indexer, scalar or "
         "index expression or kind of second operand, data seed); distinct by that tuple; non-trivial "
